@@ -357,6 +357,14 @@ func (s *Sim) genTx0() *TxSpec {
 		case 2:
 			t.UnstakeHash = st.Hash[:31]
 			t.Note = "unstake-short-hash"
+		case 3:
+			// a well-formed release addressed to an account that is (probably) no delegatee at all
+			t = s.baseTx(3, owner, s.pick(s.users).Addr)
+			t.UnstakeHash = st.Hash
+			t.Note = "unstake-from-non-delegatee"
+			if string(t.To) == string(st.To) {
+				t.Note = "unstake"
+			}
 		}
 		return t
 	case k < 60: // withdraw
